@@ -137,7 +137,7 @@ TEXT["C08"] = {
             "of thread count and piece length (both equal the exact count, C04/C05); iterator results are independent of "
             "block lengths, hints and float values (C03). Tied to src/api.cpp, Erat.cpp, CpuInfo.hpp by the cfg stream "
             "(set/get sequences, injected cache descriptions, segment geometry for sieve sizes 16..8192 incl. non powers "
-            "of two) and by re-running the segment, count and print streams on a second build without runtime dispatch "
+            "of two) and by re-running the presieve, iter, segment, count and print streams on a second build without runtime dispatch "
             "(-DWITH_MULTIARCH=OFF: portable pre-sieve, bit decoding and popcount) next to the AVX512 build, and by the sysfs "
             "stream (hook H2): one process start-up per substituted /sys/devices/system/cpu tree - realistic, hybrid, missing, "
             "zero/huge/garbage sizes, malformed sharing lists/maps, garbage levels - checking that the library initialises, "
